@@ -332,8 +332,8 @@ Definition evict_main (e : env) (s : shard) (inn : option Z) (tie : bool) (scan 
                     (s2, match a with Some x => negb (x =? 0) | None => true end)
       | None => (s1, true)
       end in
-    let '(s2, admit) := decide in
-    if negb admit then
+    let '(s2, adm) := decide in
+    if negb adm then
       match inn with
       | Some k => match find_q s2 k with
                   | Some it => let '(s3, ok, d) := drop_item e s2 it reasonRejected in (s3, ok, d)
